@@ -249,6 +249,13 @@ def Statement_skolem_roundtrip_external : Prop :=
       skolemizeLabelAt U auth base a = skolemizeLabelAt U auth base b → a = b) →
     Spec.SIso g (deSkolemizeSt U mint st (skolemizeAt U auth base g)).1
 
+/-- PARTIAL skolemisation: skolemising any chosen subset `sel` of the blank nodes (`g.skolemize(bnode=b)` one by one;
+    the chosen node may be subject, object or both, next to blank nodes that stay blank) and de-skolemising gives
+    the graph back, under the same guards as the full round trip -/
+def Statement_skolem_roundtrip_subset_partial : Prop :=
+  ∀ (U : UrlOps) (mint : Nat → Str) (st : SkState) (sel : List Str) (g : SGraph), NoGenid U g → LabelsOk U g →
+    (deSkolemizeSt U mint st (skolemizeSel U defaultAuthority rdflibSkolemGenid sel g)).1 = g
+
 theorem deskolemize_one_map : Statement_deskolemize_one_map :=
   fun U mint st g => (deSkolemizeSt_spec U mint g st).2 _ _ (CacheExt.refl _)
 
@@ -256,6 +263,11 @@ theorem skolem_roundtrip_stateful_partial : Statement_skolem_roundtrip_stateful_
   intro U mint st g hn hl
   rw [deskolemize_one_map]
   exact deSk_sk_eq U _ g hn hl
+
+theorem skolem_roundtrip_subset_partial : Statement_skolem_roundtrip_subset_partial := by
+  intro U mint st sel g hn hl
+  rw [deskolemize_one_map]
+  exact deSk_skSel_eq U _ sel g hn hl
 
 theorem skolem_roundtrip_external : Statement_skolem_roundtrip_external := by
   intro U mint hm auth base g st hf hn hp hx hinj
@@ -329,6 +341,12 @@ example : simpleJoin "http://example.org/datasets/42".toList ".well-known/genid/
     "http://example.org/datasets/.well-known/genid/rdflib/b".toList := by decide
 example : simpleJoin "http://example.org".toList ".well-known/genid/rdflib/b".toList =
     "http://example.org/.well-known/genid/rdflib/b".toList := by decide
+
+/-- non-vacuity of the partial round trip: `b` is skolemised where it is the OBJECT of a triple with a blank subject -/
+example : skolemizeSel simpleUrl defaultAuthority rdflibSkolemGenid ["b".toList]
+    [(.bnode "a".toList, .iri "http://e/p".toList, .bnode "b".toList)] =
+    [(.bnode "a".toList, .iri "http://e/p".toList,
+      .iri "https://rdflib.github.io/.well-known/genid/rdflib/b".toList)] := by decide
 
 /-- non-vacuity of the external round trip: two occurrences of one node get ONE fresh label -/
 example : (deSkolemizeSt simpleUrl (fun k => (toString k).toList) ⟨[], 0⟩
